@@ -415,6 +415,11 @@ def _do(step, W):
         head, _, last = step["path"].rpartition(".")
         setattr(_getpath(o, head), last, dec_lit(step["val"], W))
         return None
+    if k == "mutate":
+        # environment action: the caller overwrites the content of its own mutable buffer object
+        o = W.objs[step["obj"]]
+        o[:] = dec_lit(step["val"], W)
+        return None
     if k == "make":
         W.objs[step["slot"]] = build(W.plan["objects"][step["slot"]], W)
         return None
